@@ -67,6 +67,13 @@ example :
 
 /-! ### AmbientError / ResourceError exactly when the statement says -/
 
+/-- A watch that cannot even start (no channel yet and the transport to the first server cannot be created) tells
+    the watcher the error and registers nothing; `hns` in the two characterisations below excludes exactly this
+    event. -/
+theorem failed_watch_reports_error (a : Auth) (k : Key) (w : Nat) (h : cannotStart a = true) :
+    a.step (.watch k w) = { auth := a, cbs := [⟨w, .resErr .other⟩] } := by
+  simp [Auth.step, watchResource, h]
+
 /-- **C43, clause 3.** For every state and event: watcher `w` receives AmbientError(er) iff it watches a resource
     with a cached value and (a) an update that is processed (from the active or a higher-priority server) rejects
     that resource with an error string different from the one recorded by the previous rejection (DESIGN section 7
@@ -74,7 +81,8 @@ example :
     stream fails before any response and no fallback server is tried (it is not the active server's stream, or no
     server is left, or nothing is uncached), or (c) `w` is a new watcher and the last
     update of the cached resource was NACKed. -/
-theorem ambient_iff_cached_and_rejected_or_stream_failed (a : Auth) (e : AEv) (w : Nat) (er : Err) :
+theorem ambient_iff_cached_and_rejected_or_stream_failed (a : Auth) (e : AEv) (w : Nat) (er : Err)
+    (hns : ∀ k w', e = .watch k w' → cannotStart a = false) :
     (⟨w, .ambErr er⟩ : Cb) ∈ (a.step e).cbs ↔
       (∃ p ∈ a.res, w ∈ p.2.watchers ∧ p.2.cache.isSome = true ∧
         ((∃ srv gen ver es t, e = .update srv gen p.1.typ ver es ∧ (revert a srv).2.2 = true ∧
@@ -116,7 +124,8 @@ theorem ambient_iff_cached_and_rejected_or_stream_failed (a : Auth) (e : AEv) (w
         exact amb_mem_propagate.mpr ⟨p, hp, hw, hcache, rfl⟩
       · simp at h
   | watch k w' =>
-    simp only [Auth.step, watch]
+    have hwr : watchResource a k w' = watch a k w' := by simp [watchResource, hns k w' rfl]
+    simp only [Auth.step, hwr, watch]
     constructor
     · intro h
       split at h
@@ -143,6 +152,11 @@ theorem ambient_iff_cached_and_rejected_or_stream_failed (a : Auth) (e : AEv) (w
         · simp at h
         · split at h <;> simp at h
     · rintro (⟨_, _, _, _, ⟨_, _, _, _, _, h, _⟩ | ⟨_, h, _⟩⟩ | ⟨_, _, _, _, h, _⟩) <;> simp at h
+  | env l =>
+    simp only [Auth.step]
+    constructor
+    · intro h; simp at h
+    · rintro (⟨_, _, _, _, ⟨_, _, _, _, _, h, _⟩ | ⟨_, h, _⟩⟩ | ⟨_, _, _, _, h, _⟩) <;> simp at h
 
 
 /-- **C43, clause 4.** For every state and event: watcher `w` receives ResourceError(er) iff it watches a resource
@@ -151,7 +165,8 @@ theorem ambient_iff_cached_and_rejected_or_stream_failed (a : Auth) (e : AEv) (w
     server does not have ignore_resource_deletion, (c) its watch expiry timer fired, (d) a stream fails before any
     response, nothing is cached and no fallback server is tried, or (e) `w` is a new watcher of a resource that is
     NACKed without cache or marked non-existent. -/
-theorem resource_error_iff_no_valid (a : Auth) (e : AEv) (w : Nat) (er : Err) :
+theorem resource_error_iff_no_valid (a : Auth) (e : AEv) (w : Nat) (er : Err)
+    (hns : ∀ k w', e = .watch k w' → cannotStart a = false) :
     (⟨w, .resErr er⟩ : Cb) ∈ (a.step e).cbs ↔
       (∃ p ∈ a.res, w ∈ p.2.watchers ∧
         ((∃ srv gen ver es t, e = .update srv gen p.1.typ ver es ∧ (revert a srv).2.2 = true ∧ p.2.cache = none ∧
@@ -218,7 +233,8 @@ theorem resource_error_iff_no_valid (a : Auth) (e : AEv) (w : Nat) (er : Err) :
         exact res_mem_propagate.mpr ⟨p, hp, hw, hcache, rfl⟩
       · simp at h
   | watch k w' =>
-    simp only [Auth.step, watch]
+    have hwr : watchResource a k w' = watch a k w' := by simp [watchResource, hns k w' rfl]
+    simp only [Auth.step, hwr, watch]
     constructor
     · intro h
       split at h
@@ -246,16 +262,22 @@ theorem resource_error_iff_no_valid (a : Auth) (e : AEv) (w : Nat) (er : Err) :
         · simp at h
         · split at h <;> simp at h
     · rintro (⟨_, _, _, ⟨_, _, _, _, _, h, _⟩ | ⟨_, _, _, _, h, _⟩ | ⟨h, _⟩ | ⟨_, h, _⟩⟩ | ⟨_, _, h, _⟩) <;> simp at h
+  | env l =>
+    simp only [Auth.step]
+    constructor
+    · intro h; simp at h
+    · rintro (⟨_, _, _, ⟨_, _, _, _, _, h, _⟩ | ⟨_, _, _, _, h, _⟩ | ⟨h, _⟩ | ⟨_, h, _⟩⟩ | ⟨_, _, h, _⟩) <;> simp at h
 
 
 /-- **C43, clauses 3+4 (which callback).** In every reachable state: after ResourceError the watcher's resource has
     no cached value ("no valid resource exists"), after AmbientError it still has one. -/
 theorem error_kind_matches_cache (n : Nat) (ign : List Bool) (hist : List AEv) (hf : FreshRun (Auth.init n ign) hist)
-    (e : AEv) (w : Nat) (er : Err) :
+    (e : AEv) (w : Nat) (er : Err)
+    (hns : ∀ k w', e = .watch k w' → cannotStart (Auth.run (Auth.init n ign) hist) = false) :
     let a := Auth.run (Auth.init n ign) hist
     ((⟨w, .resErr er⟩ : Cb) ∈ (a.step e).cbs → ∃ p ∈ (a.step e).auth.res, w ∈ p.2.watchers ∧ p.2.cache = none) ∧
     ((⟨w, .ambErr er⟩ : Cb) ∈ (a.step e).cbs → ∃ p ∈ (a.step e).auth.res, w ∈ p.2.watchers ∧ p.2.cache.isSome = true) :=
-  error_step (inv_run hist _ (inv_init n ign) hf)
+  error_step (inv_run hist _ (inv_init n ign) hf) hns
 
 /-- **C43, clause 3, the de-duplication reading.** In every reachable state, if a resource's recorded error is
     `t` (so that a further rejection with the same error string is NOT re-delivered), then every watcher of the
@@ -316,6 +338,35 @@ theorem last_unwatch_unsubscribes (a : Auth) (k : Key) (w : Nat) (r : RState) (h
   · refine ⟨fun i hi => ?_, ?_⟩
     · simp only [List.mem_map]; exact ⟨i, hi, rfl⟩
     · intro p hp; simp only [List.mem_filter, decide_eq_true_eq] at hp; simpa using hp.2
+
+/-- the commands of the last unwatch, in order: first the unsubscriptions on every channel the resource was
+    subscribed on, only then (if it was the authority's last resource) the release of the channel references -/
+theorem last_unwatch_unsubscribes_before_release (a : Auth) (k : Key) (w : Nat) (r : RState)
+    (hl : lookup a.res k = some r) (hlast : r.watchers.filter (· ≠ w) = []) :
+    (unwatch a k w).cmds =
+      (r.chans.map fun i => Cmd.unsub i k) ++ (if a.res.filter (·.1 ≠ k) = [] then a.opened.map Cmd.release else []) := by
+  simp only [unwatch, hl, hlast, ne_eq, not_true_eq_false, ↓reduceIte]
+  split <;> simp [*]
+
+/-- layer B: whatever else a channel is used for (it may be shared with another authority and stay open), after
+    the unsubscribe command the resource is no longer in its subscription set, and the request that goes out on a
+    live stream lists the remaining names only -/
+theorem chanUnsub_forgets (c : Chan) (now : Nat) (k : Key) (ho : c.opened = true) (ht : c.types.contains k.typ = true) :
+    k ∉ (chanUnsub c now k).subs.map (·.1) := by
+  unfold chanUnsub
+  simp only [ho, Bool.not_true, Bool.false_eq_true, ↓reduceIte, ht]
+  by_cases hs : c.subs.any (·.1 = k) = true
+  · simp only [hs, Bool.not_true, Bool.false_eq_true, ↓reduceIte]
+    unfold sendReq
+    split
+    · simp only [startTimers_keys]
+      simp
+    · simp
+  · simp only [hs, Bool.not_false, ↓reduceIte]
+    simp only [List.any_eq_true, decide_eq_true_eq, not_exists, not_and] at hs
+    simp only [List.mem_map, not_exists, not_and]
+    intro p hp hpk
+    exact hs p hp hpk
 
 /-- **C43, clause 6.** In every history over a client with at least one server: the set of (server, resource)
     subscriptions the authority holds (subscribe / unsubscribe / release commands it issued, accumulated) is at
